@@ -255,7 +255,11 @@ namespace smt
                         ls[lits_size++] = p;
                     }
                 }
-                break;
+                // one of the literals is already true, hence all the remaining ones must be false..
+                ls.resize(lits_size);
+                for (auto &l : ls)
+                    l = !l;
+                return new_conj(std::move(ls));
             }
             else if (value(*it0) != False && *it0 != p)
             { // we need to include this literal in the at-most-one..
@@ -329,7 +333,11 @@ namespace smt
                         ls[j++] = p;
                     }
                 }
-                break;
+                // one of the literals is already true, hence all the remaining ones must be false..
+                ls.resize(j);
+                for (auto &l : ls)
+                    l = !l;
+                return new_conj(std::move(ls));
             }
             else if (value(*it0) != False && *it0 != p)
             { // we need to include this literal in the exact-one..
